@@ -1,4 +1,4 @@
 From Coq Require Import ExtrOcamlBasic ExtrOcamlString.
 From WB Require Import Async.FutureOp.
 Extraction Language OCaml.
-Extraction "../build/extracted/futureop_model.ml" run cleanup count_new clean_log quiescent_fut exec.
+Extraction "../build/extracted/futureop_model.ml" run cleanup count_new clean_log quiescent_fut exec cstep fut0 clean_toks.
